@@ -175,6 +175,7 @@ func sameIDs(a, b []types.SiacoinOutputID) bool {
 type stubSyncer struct {
 	mu      sync.Mutex
 	fail    bool
+	hold    bool // accept the set but do not hand it to the network (it stays unconfirmed)
 	deliver func(types.ChainIndex, []types.V2Transaction) error
 	calls   int
 }
@@ -183,11 +184,14 @@ var errNoPeers = errors.New("no peers available")
 
 func (s *stubSyncer) BroadcastV2TransactionSet(index types.ChainIndex, txns []types.V2Transaction) error {
 	s.mu.Lock()
-	fail, deliver := s.fail, s.deliver
+	fail, hold, deliver := s.fail, s.hold, s.deliver
 	s.calls++
 	s.mu.Unlock()
 	if fail {
 		return errNoPeers
+	}
+	if hold {
+		return nil
 	}
 	if deliver != nil {
 		return deliver(index, txns)
@@ -196,6 +200,7 @@ func (s *stubSyncer) BroadcastV2TransactionSet(index types.ChainIndex, txns []ty
 }
 
 func (s *stubSyncer) setFail(f bool) { s.mu.Lock(); s.fail = f; s.mu.Unlock() }
+func (s *stubSyncer) setHold(h bool) { s.mu.Lock(); s.hold = h; s.mu.Unlock() }
 
 // recWallet is the host's rhp4.Wallet: the real wallet behind a recorder.
 type recWallet struct {
@@ -411,6 +416,8 @@ type World struct {
 	active rhp4.ContractRevision
 	// relation currently arranged between the renter's and the host's chain
 	relation string
+	// the active contract's formation set while it is deliberately kept unconfirmed (pv "noelem")
+	held *rhp4.TransactionSet
 	closers []func()
 }
 
@@ -600,6 +607,57 @@ func (w *World) syncTo(nd *node) error {
 	return nd.addBlocks(bs)
 }
 
+// Prepare puts the world into the state the descriptor asks for: the chain relation, the input
+// mode and -- for "noelem" -- an active contract that the host has recorded but whose formation
+// is not confirmed yet (formed now, its broadcast withheld from the network).
+func (w *World) Prepare(d Desc) error {
+	switch {
+	case d.PV == "noelem" && w.held == nil:
+		if err := w.Arrange("same", "conf"); err != nil {
+			return err
+		}
+		w.syn.setHold(true)
+		o, err := w.Attempt(Desc{Kind: "form", PV: "ok", Basis: "same", Inp: "conf", Fault: "none"})
+		w.syn.setHold(false)
+		if err != nil {
+			return err
+		}
+		rec, ok := w.con.lastRecorded()
+		if o.R != "ok" || !ok || rec.ID != o.result.contract.ID {
+			return fmt.Errorf("cannot form the unconfirmed contract: %s", o.RErr)
+		}
+		w.active = o.result.contract
+		set := rec.Set
+		w.held = &set
+	case d.PV != "noelem" && w.held != nil:
+		if err := w.confirmHeld(); err != nil {
+			return err
+		}
+	}
+	return w.Arrange(d.Basis, d.Inp)
+}
+
+// confirmHeld lets the withheld formation reach the network and be mined.
+func (w *World) confirmHeld() error {
+	if w.held == nil {
+		return nil
+	}
+	if err := w.Arrange("same", "conf"); err != nil {
+		return err
+	}
+	if _, err := w.net.cm.AddV2PoolTransactions(w.held.Basis, w.held.Transactions); err != nil {
+		return fmt.Errorf("network rejects the withheld formation: %w", err)
+	}
+	w.held = nil
+	if err := w.Mine(); err != nil {
+		return err
+	}
+	if _, _, err := w.con.V2FileContractElement(w.active.ID); err != nil {
+		return fmt.Errorf("withheld formation was not confirmed: %w", err)
+	}
+	return nil
+}
+
 // Arrange establishes the basis relation between the renter's chain and the host's -- same tip,
 // renter behind, renter on a stale fork the host has seen ("fork") or not ("forkx") -- and
 // whether the renter's funds are confirmed outputs or one unconfirmed output with a parent.
@@ -622,6 +680,11 @@ func (w *World) Arrange(rel, inp string) error {
 	}
 	if len(w.renter.cm.V2PoolTransactions()) != 0 {
 		return errors.New("renter pool not empty after confirmation")
+	}
+	// keep the renter's funds in several outputs (a sweep confirmed earlier leaves a single one,
+	// and one successful attempt would then tie up everything until its block)
+	if err := w.splitRenter(); err != nil {
+		return err
 	}
 	switch rel {
 	case "same":
@@ -663,6 +726,42 @@ func (w *World) Arrange(rel, inp string) error {
 		return w.makeUnconfirmed()
 	}
 	return nil
+}
+
+// splitRenter splits the renter's largest output into eight when it owns fewer than four
+// spendable outputs; the split is mined at once (everybody is at the network's tip here).
+func (w *World) splitRenter() error {
+	sp, err := w.renter.w.SpendableOutputs()
+	if err != nil {
+		return err
+	}
+	if len(sp) == 0 || len(sp) >= 4 {
+		return nil
+	}
+	big := sp[0]
+	for _, e := range sp {
+		if e.SiacoinOutput.Value.Cmp(big.SiacoinOutput.Value) > 0 {
+			big = e
+		}
+	}
+	fee := types.Siacoins(1)
+	if big.SiacoinOutput.Value.Cmp(types.Siacoins(100000)) < 0 {
+		return nil
+	}
+	part := big.SiacoinOutput.Value.Sub(fee).Div64(8)
+	txn := types.V2Transaction{MinerFee: big.SiacoinOutput.Value.Sub(part.Mul64(8)), SiacoinInputs: []types.V2SiacoinInput{{Parent: big.Copy()}}}
+	for i := 0; i < 8; i++ {
+		txn.SiacoinOutputs = append(txn.SiacoinOutputs, types.SiacoinOutput{Address: w.renter.w.Address(), Value: part})
+	}
+	w.renter.w.SignV2Inputs(&txn, []int{0})
+	tip, err := w.renter.ws.Tip()
+	if err != nil {
+		return err
+	}
+	if _, err := w.net.cm.AddV2PoolTransactions(tip, []types.V2Transaction{txn}); err != nil {
+		return fmt.Errorf("network rejects the renter's split: %w", err)
+	}
+	return w.Mine()
 }
 
 // errDrained: the renter has (almost) nothing left to spend -- the harness starts a fresh world.
